@@ -562,6 +562,32 @@ def t_monty(rec, rnd, tier, part, parts):
             a = rnd.choice([0, 1, m - 1, m - 2, (1 << rnd.randrange(0, 8 * ln)) % m, rnd.randrange(0, m), ((1 << (64 * rnd.randrange(1, 10))) - 1) % m])
             b = rnd.choice([0, 1, m - 1, m - 2, (1 << rnd.randrange(0, 8 * ln)) % m, rnd.randrange(0, m), a])
             rec.case(cm, 'monty_multiply', a=a, b=b, mod=m, length=ln)
+        # zero divisors: operands that are non-zero modulo a COMPOSITE odd modulus but whose product / power is 0 modulo it.  The
+        # Montgomery product then ends exactly at t == n before the final conditional subtraction (the boundary of `t >= n`), which
+        # prime moduli, zero operands and random operands never reach.
+        cz = rec.declare('raw.monty.zero_divisors', 'monty_multiply / monty_pow return 0 (not the modulus) when the product / power is 0 modulo a composite odd modulus and no operand is 0',
+                         'per length: m = p*q (a = p, b = q), m = x*x (pow(x, 2, m)), m = 3**k or p**k (pow(3*c, e, m) for e >= k), p and q odd of about half the length',
+                         'src/mont.c:mont_mult_generic final subtraction')
+        for it in range(6 if tier == 'quick' else 60):
+            half = max(1, 4 * ln)
+            pp = rnd.randrange(1 << (half - 1), 1 << half) | 1
+            qq = rnd.randrange(3, max(4, top // pp)) | 1 if top // pp > 4 else 3
+            m = pp * qq
+            if 3 <= m < top and pp % m and qq % m:
+                rec.case(cz, 'monty_multiply', a=pp % m, b=qq % m, mod=m, length=ln)
+            x = rnd.randrange(3, max(4, 1 << half)) | 1
+            m = x * x
+            if 9 <= m < top:
+                rec.case(cz, 'monty_pow', base=x, exp=2, mod=m, length=ln, seed=rnd.getrandbits(64))
+                rec.case(cz, 'monty_multiply', a=x, b=x, mod=m, length=ln)
+            k = rnd.randrange(2, 6)
+            m = 3 ** k
+            while m * 3 ** k < top and rnd.random() < 0.7:
+                m *= 3 ** k
+            if m < top:
+                # (every operand of the raw routine is `length` bytes long: the exponent too; e >= log3(m) makes the power 0)
+                rec.case(cz, 'monty_pow', base=(3 * rnd.randrange(1, 50)) % m or 3, exp=min(top - 1, rnd.randrange(200, 400)) if top - 1 >= 6 * ln else top - 1,
+                         mod=m, length=ln, seed=rnd.getrandbits(64))
     if part == 0:
         for ln in (1, 8, 9, 26, 40):
             for m in (0, 2, 4, 2 ** 64, 2 ** 200 + 2):
